@@ -31,7 +31,7 @@ func runC14(c *Ctx) {
 	p := c.Progs["mod"]
 	c.Rule("C14.G", "banner gating by partial evaluation of the predicates", 13)
 	c.Rule("C14.X", "1xx interim statuses do not latch the banner writer (= C03.X)", 2)
-	c.Rule("C14.T", "predicate truth tables and constants", 9)
+	c.Rule("C14.T", "predicate truth tables and constants", 11)
 	// the URL the frame embeds is the one the client requested: the banner keeps the request's
 	// *url.URL and renders it when the backend's header arrives, so nothing in the agent's
 	// handler chain may rewrite that URL in place (= C02.W)
@@ -50,7 +50,7 @@ func runC14(c *Ctx) {
 		}
 		c.Check("C14.G", "frame:requested-url-not-rewritten-in-place", p, 0, bad == "", fmt.Sprintf("no handler of the agent's chain stores into the request's URL (%d request mutation sites inspected)", n), "the request URL is rewritten in place ("+bad+"): the banner renders the same *url.URL later, so the frame embeds the rewritten URL instead of the requested one")
 	}
-	c.Rule("C14.S", "shim splice gated by the HTML content type; body preserved", 5)
+	c.Rule("C14.S", "shim splice gated by the HTML content type; body preserved", 6)
 	const bpkg = ModPath + "/agent/banner"
 
 	// the two header effects, through the helpers or written out in place
@@ -574,6 +574,38 @@ func runC14(c *Ctx) {
 				}
 			}
 		})
+		// truth table: the browser's own "I am framed" signal decides alone — also without a Referer
+		// (Referrer-Policy: no-referrer, an https→http hop)
+		for _, tc := range []map[string]string{{"Sec-Fetch-Dest": "iframe"}, {"Sec-Fetch-Mode": "nested-navigate"}} {
+			hdr := tc
+			env := func(v ssa.Value) (constant.Value, bool) {
+				if g := CallResult(v, 0, "(net/http.Header).Get"); g != nil {
+					if k, isC := ConstString(PArgs(&g.Call)[1]); isC {
+						return constant.MakeString(hdr[canonicalHeaderKey(k)]), true
+					}
+				}
+				return nil, false
+			}
+			badRet := ""
+			nret := 0
+			(&Walk{Target: func(i ssa.Instruction) bool {
+				r, isR := i.(*ssa.Return)
+				if !isR || i.Parent() != f {
+					return false
+				}
+				nret++
+				cv, okv := Eval(ReturnValue(r, 0), env)
+				if !okv || cv.Kind() != constant.Bool || !constant.BoolVal(cv) {
+					badRet = p.Pos(r.Pos())
+				}
+				return false
+			}, Edge: EdgeUnder(env), Ctx: f}).FromBlock(f.Blocks[0])
+			name := ""
+			for k, v := range hdr {
+				name = k + "=" + v
+			}
+			c.Check("C14.T", "isAlreadyFramed:["+name+",no-referer]", p, f.Pos(), badRet == "" && nret > 0, "with "+name+" and no Referer every reachable return is true", "with "+name+" and no Referer header isAlreadyFramed can return something other than true (return at "+badRet+"): a framed navigation that sends no Referer gets another banner frame around the frame")
+		}
 		c.Check("C14.T", "isAlreadyFramed:referer-path", p, f.Pos(), okRef, "the referer only counts when its path equals the request's", "the referer test no longer compares the paths")
 	}
 	inlineIn := func(pred func(ssa.Instruction) bool) bool {
@@ -667,6 +699,59 @@ func runC14(c *Ctx) {
 			c.Check("C14.S", "splice:non-html-untouched", p, cl.Pos(), h == nil, "when the content type does not contain \"html\" the response's body, header and fields are not touched (nor is the body read)", "a non-HTML response is altered (or its body consumed) at "+posStr(p, h))
 			h, _ = (&Walk{Target: isAlter, Edge: EdgeUnder(env(true))}).FromBlock(cl.Blocks[0])
 			c.Check("C14.S", "splice:html-is-shimmed", p, cl.Pos(), h != nil, "HTML responses are shimmed", "HTML responses are no longer shimmed")
+		}
+		// the hook fails a response only for a genuine read error: every error it returns is the raw
+		// error of the look-ahead read, compared with io.EOF itself (a wrapped EOF — an empty HTML
+		// body read with io.ReadFull and decorated with %w — never equals io.EOF, and the reverse
+		// proxy turns the hook's error into 502)
+		{
+			badErr := ""
+			nerr := 0
+			EachInstr(cl, func(i ssa.Instruction) {
+				r, isR := i.(*ssa.Return)
+				if !isR || i.Parent() != cl || len(r.Results) == 0 {
+					return
+				}
+				ev := ReturnValue(r, len(r.Results)-1)
+				if IsNilConst(ev) {
+					return
+				}
+				nerr++
+				raw := true
+				for _, root := range Roots(ev) {
+					ex, isE := root.(*ssa.Extract)
+					if !isE {
+						raw = false
+						continue
+					}
+					call, isC := ex.Tuple.(*ssa.Call)
+					if !isC {
+						raw = false
+						continue
+					}
+					n := CalleeName(call.Common())
+					if !(call.Call.IsInvoke() && call.Call.Method.Name() == "Read") && n != "io.ReadFull" && n != "io.ReadAtLeast" {
+						raw = false
+					}
+				}
+				eofTested := false
+				for _, g := range GuardConds(r) {
+					if bo, isB := g.Cond.(*ssa.BinOp); isB && bo.Op == token.NEQ && g.Truth {
+						if PathOf(bo.Y) == "*global:EOF" || PathOf(bo.Y) == "*global:io.EOF" || strings.HasSuffix(PathOf(bo.Y), "global:EOF") {
+							if SameValue(bo.X, ev) {
+								eofTested = true
+							}
+						}
+					}
+					if call := CallResult(g.Cond, 0, "errors.Is"); call != nil && !g.Truth {
+						eofTested = true
+					}
+				}
+				if !raw || !eofTested {
+					badErr = fmt.Sprintf("the error returned at %s (raw read error: %v, compared with io.EOF: %v)", p.Pos(r.Pos()), raw, eofTested)
+				}
+			})
+			c.Check("C14.S", "splice:fails-only-on-a-real-read-error", p, cl.Pos(), badErr == "", fmt.Sprintf("%d error return(s) of the hook: the raw error of the look-ahead read, returned only when it is not io.EOF", nerr), badErr+": an HTML-typed reply with an empty body (HEAD, 204, an empty 200) ends the look-ahead with EOF; if that is not recognised the hook fails and the client gets the reverse proxy's 502 instead of the backend's reply")
 		}
 		// new body
 		okBody := false
